@@ -624,6 +624,11 @@ def unify_symmetric(c, facts, R):
     c.floor(R, 'two-sided cases of unify', len(pairs), 2)
     lone = sorted(p for p in pairs if p[0] != p[1] and (p[1], p[0]) not in pairs)
     inst = {'cases': sorted('%s/%s' % p for p in pairs)}
+    # ... and exact: two different constructors never unify (only a variable stands for another kind). The kind tables of
+    # the checker and the casts of the evaluator read `tag(x) = Uri` as "x is a URI".
+    mixed = sorted(p for p in pairs if p[0] != p[1] and 'Var' not in p)
+    if mixed:
+        c.bad(R, 'unify:kinds-conflated:%s' % ','.join(sorted(set('-'.join(sorted(p)) for p in mixed))), 'unify() has a case for two different constructors %s: an equation `tag = A` no longer means the node is an A, so a position typed A receives values of kind B (a recursion point of kind B where no component can be referenced)' % ['(%s, %s)' % p for p in mixed], **inst)
     if lone:
         c.bad(R, 'unify:one-sided-case:%s' % ','.join('%s-%s' % p for p in lone), 'unify() has a case for %s without the mirrored one: which side a tag is on depends on the order of the equations, so permuting declarations changes the verdict' % ['(%s, %s)' % p for p in lone], **inst)
     else:
